@@ -10,24 +10,60 @@ use std::path::{Path, PathBuf};
 use std::process::{Child, Command, Stdio};
 use std::time::{Duration, Instant};
 
-/// A loopback port no other launch of THIS process uses: ports are handed out from a per-process
-/// counter (two bind(0)+close probes in parallel threads can return the same ephemeral port, and
-/// a launch would then mistake another job's server for its own) and probed for availability.
+/// A loopback port nobody else is going to use. Ports come from 10000..32000 — below the kernel's
+/// ephemeral range (32768+), where other software's bind(0) listeners and outgoing connections
+/// live — and are claimed ACROSS processes through exclusive marker files in /dev/shm (two checks
+/// running side by side both probe a port as free, both children try to bind it, and the loser's
+/// parent would talk to the winner's server). A marker whose owner process is gone is reclaimed.
 pub fn free_port() -> u16 {
+    use std::io::Write;
     use std::sync::atomic::{AtomicU32, Ordering};
     static NEXT: AtomicU32 = AtomicU32::new(0);
-    let base = 20_000 + (std::process::id() % 300) * 100;
-    for _ in 0..20_000 {
+    const LO: u32 = 10_000;
+    const SPAN: u32 = 22_000;
+    let dir = Path::new("/dev/shm/kyverif-ports");
+    let _ = std::fs::create_dir_all(dir);
+    let me = std::process::id();
+    let base = (me.wrapping_mul(2_654_435_761)) % SPAN;
+    for _ in 0..(2 * SPAN) {
         let n = NEXT.fetch_add(1, Ordering::Relaxed);
-        let port = (base + n) % 40_000 + 20_000;
-        if port > 65_000 {
-            continue;
+        let port = LO + (base + n) % SPAN;
+        let marker = dir.join(port.to_string());
+        match std::fs::OpenOptions::new().write(true).create_new(true).open(&marker) {
+            Ok(mut f) => {
+                let _ = write!(f, "{me}");
+            }
+            Err(_) => {
+                // owned by a live process (possibly this one)? then skip; else reclaim
+                let owner: Option<u32> = std::fs::read_to_string(&marker).ok().and_then(|s| s.trim().parse().ok());
+                match owner {
+                    Some(pid) if Path::new(&format!("/proc/{pid}")).exists() => continue,
+                    _ => {
+                        let _ = std::fs::remove_file(&marker);
+                        continue;
+                    }
+                }
+            }
         }
         if std::net::TcpListener::bind(("127.0.0.1", port as u16)).is_ok() {
             return port as u16;
         }
+        // somebody outside this scheme holds it: keep the marker (nobody should try it again soon)
     }
     panic!("no free loopback port");
+}
+
+/// Remove this process's port markers (called by the slices when they are done; markers of a
+/// process that died are reclaimed by `free_port`).
+pub fn release_ports() {
+    let me = std::process::id().to_string();
+    if let Ok(rd) = std::fs::read_dir("/dev/shm/kyverif-ports") {
+        for e in rd.flatten() {
+            if std::fs::read_to_string(e.path()).map(|s| s.trim() == me).unwrap_or(false) {
+                let _ = std::fs::remove_file(e.path());
+            }
+        }
+    }
 }
 
 pub struct RealServer {
